@@ -259,7 +259,9 @@ def gen_cases(ctx, mode, count, seed, procs=8):
 
     def run(j):
         p, n, out = j
-        rc, o = vlib.harness(["l2", "-seed", seed * 1000 + p, "-count", n, "-out", out, mode], timeout=3000)
+        # about 1.2 s per history on an idle machine, 13 s observed beside two other check streams: the limit is generous,
+        # a time-out is a machinery failure and not a verdict on the code
+        rc, o = vlib.harness(["l2", "-seed", seed * 1000 + p, "-count", n, "-out", out, mode], timeout=max(3000, 45 * n))
         if rc != 0 and rc != 124:
             # the implementation ended the harness process in the middle of a history (panic, logger.Fatalf): run the
             # job again with VERIF_TRACE (every operation is logged before it runs) and report the history as the
